@@ -14,7 +14,7 @@ import (
 )
 
 func TestZZBoundedC11(t *testing.T) {
-	fmt.Println("BOUNDED-BOUND: regexes FLAG ^? ATOM{1,3} $? over 16 atoms (one of them a character class that matches nothing, one an open-ended repetition) and 5 flag prefixes, operators =~ and !~, candidate values of length 0..3 over {a,b,c,A,newline,x,e-acute}")
+	fmt.Println("BOUNDED-BOUND: regexes FLAG ^? ATOM{1,3} $? over 16 atoms (one of them a character class that matches nothing, one an open-ended repetition) and 5 flag prefixes, operators =~ and !~, candidate values of length 0..3 over {a,b,c,A,newline,x,e-acute}; plus 392 statements with two regex conditions (7 x 7 expressions incl. group-scoped flags, both operators, AND / OR) over 10 x 10 values")
 	atoms := []string{"a", "b", "ab", "[ab]", "[a-c]", "(a|b)", "[ac]", "(ab|c)", "a?", "a*", ".", "(a$|b)", "b{2}", "[a\u00e9]", `[^\x00-\x{10FFFF}]`, "a{2,}"}
 	flags := []string{"", "(?i)", "(?m)", "(?s)", "(?U)"}
 	heads := []string{"^", "", "^^"}
@@ -82,6 +82,47 @@ func TestZZBoundedC11(t *testing.T) {
 									first[class] = fmt.Sprintf("%s rewritten to %s: value %q gives %v before and %v after", text, sel.Condition.String(), v, a, b)
 								}
 								break
+							}
+						}
+					}
+				}
+			}
+		}
+	}
+	// several regex conditions in one statement, joined by AND / OR in every mix of =~ and !~, and group-scoped flags:
+	// every condition is rewritten on its own
+	multi := []string{"^(a|b)$", "^(b|c)$", "^a$", "^[ab]c$", "^(?i:a|b)$", "^((?i)ab)$", "^(a|b|ab)$"}
+	small := []string{"", "a", "b", "c", "A", "B", "ab", "AB", "ac", "bc"}
+	for _, r1 := range multi {
+		for _, r2 := range multi {
+			for _, o1 := range []string{"=~", "!~"} {
+				for _, o2 := range []string{"=~", "!~"} {
+					for _, j := range []string{"AND", "OR"} {
+						total++
+						text := "SELECT v FROM m WHERE host " + o1 + " /" + r1 + "/ " + j + " region " + o2 + " /" + r2 + "/"
+						st, err := ParseStatement(text)
+						if err != nil {
+							continue
+						}
+						sel := st.(*SelectStatement)
+						orig := CloneExpr(sel.Condition)
+						sel.RewriteRegexConditions()
+						if sel.Condition.String() == orig.String() {
+							continue
+						}
+						rewritten++
+					vals:
+						for _, v1 := range small {
+							for _, v2 := range small {
+								m := map[string]interface{}{"host": v1, "region": v2}
+								if a, b := Eval(orig, m), Eval(sel.Condition, m); a != b {
+									class := "rewrite-changes-matches:two-conditions"
+									fails[class]++
+									if first[class] == "" {
+										first[class] = fmt.Sprintf("%s rewritten to %s: host %q region %q gives %v before and %v after", text, sel.Condition.String(), v1, v2, a, b)
+									}
+									break vals
+								}
 							}
 						}
 					}
